@@ -27,10 +27,15 @@ def numeric_spellings(tier='quick'):
               ('const_shift', '%s << 1' % K, [K]), ('tmax', '%s::MAX' % t, []), ('tmin', '%s::MIN' % t, []),
               ('call', 'five_%s()' % t, ['five_' + t]), ('typed_lit', '5%s' % t, []), ('sum', '5 + 1', []), ('shift', '1 << 3', []),
               ('userpath_max', 'limits_%s::MAX' % t, ['limits_' + t]), ('userpath_min', 'limits_%s::MIN' % t, ['limits_' + t]),
-              ('const_minus', '%s - 1' % K, [K]), ('cast', '(300u16 as %s)' % t if t != 'u8' else '(3u16 as u8)', [])]
+              ('const_minus', '%s - 1' % K, [K]), ('cast', '(300u16 as %s)' % t if t != 'u8' else '(3u16 as u8)', []),
+              # decimal literals with leading zeros (NOT octal in Rust), radix literals, suffixed zero
+              ('lead0', '010', []), ('lead00', '0100', []), ('lead0_45', '055', []), ('hex', '0x1F', []), ('oct', '0o17', []), ('bin', '0b1010', []),
+              ('typed_zero', '0%s' % t, []), ('typed_under', '1_0%s' % t, []),
+              # expressions made of untyped literals only: they take the INNER type (not i32), which `>>`, `/`, `%` make visible
+              ('not_shr', '!0 >> 1', []), ('not_div', '!0 / 4', []), ('shl_shr', '(1 << 7) >> 7', []), ('rem', '(1 << 9) % 7', [])]
         if signed:
             sp += [('neg5', '-5', []), ('negconst', '-%s' % K, [K]), ('negparen', '-(5)', []), ('parenneg', '(-5)', []),
-                   ('negcall', '-five_%s()' % t, ['five_' + t]), ('negunder', '-1_0', [])]
+                   ('negcall', '-five_%s()' % t, ['five_' + t]), ('negunder', '-1_0', []), ('neglead0', '-0100', [])]
         for tag, src, names in sp:
             for kind in (['greater', 'less_or_equal'] if (tier == 'quick' and not tag.startswith('userpath')) else ['greater', 'greater_or_equal', 'less', 'less_or_equal']):
                 d = mk('sp_%s_%s_%s' % (t, kind, tag), 'int', t, validators=[Validator(kind, _b(src, t))], aux=names,
@@ -44,7 +49,8 @@ def numeric_spellings(tier='quick'):
               ('tmax', '%s::MAX' % t, []), ('negtmax', '-%s::MAX' % t, []), ('inf', '%s::INFINITY' % t, []), ('neginf', '-%s::INFINITY' % t, []),
               ('neginf2', '%s::NEG_INFINITY' % t, []), ('call', 'five_%s()' % t, ['five_' + t]), ('negcall', '-five_%s()' % t, ['five_' + t]),
               ('typed', '5.5%s' % t, []), ('arith', '2.0 * 3.0', []), ('const_arith', '%s / 4.0' % K, [K]), ('negzero', '-0.0', []),
-              ('minpos', '%s::MIN_POSITIVE' % t, []), ('huge', '1e400', []),
+              ('minpos', '%s::MIN_POSITIVE' % t, []), ('huge', '1e400', []), ('lead0', '010.5', []), ('lead0int', '0100', []), ('typed_zero', '0%s' % t, []),
+              ('computed', '0.1 + 0.2', []),
               ('userpath_max', 'limits_%s::MAX' % t, ['limits_' + t]), ('userpath_min', 'limits_%s::MIN' % t, ['limits_' + t])]
         for tag, src, names in sp:
             for kind in (['greater_or_equal', 'less'] if (tier == 'quick' and not tag.startswith('userpath')) else ['greater', 'greater_or_equal', 'less', 'less_or_equal']):
